@@ -179,7 +179,17 @@ func runC01(c *vh.Ctx) {
 		"stratified so that every ending meets every block x via, every output set x synchronisation and every nesting x position (thorough: 4 draws each; " +
 		"quick: a seed-dependent third), plus random programs of the same language; each run in two spellings and two kinds of Config.Output in a scratch " +
 		"directory and compared — standard output, every file afterwards, exit status, error/no-error — with a tree-walking reference evaluator in which " +
-		"destinations are logs; non-trivial = the two spellings differ")
+		"destinations are logs; non-trivial = the two spellings differ. Return-value stream: programs of the same language in which the value of a " +
+		"user-function call is looked at, built from a matrix callee left by (return constant / expression / never-set local / set local / nested call / " +
+		"expression around a nested call, bare return, falling off the end) x what the activation did before (no call, a valued call dropped / stored / " +
+		"printed / tested / made in a loop, a call left by a bare return / by falling off the end, a valued call then a bare one, recursion) x before or " +
+		"inside the nest x nest (plain, if, else, for, while, do, for-in, getline loop and five combinations up to three deep, the ending at a chosen " +
+		"iteration) x 21 uses of the value (string, number, minus, if, ?:, !, &&, ||, subscript, argument and back, argument tested in the callee, " +
+		"concatenation, length, comparison, test for the uninitialised value, stored in a global / local / inside an expression, dropped then another " +
+		"call used, two calls in one expression, returned by two more callers), stratified so that every ending meets every before x nest x where and " +
+		"every before x use, every nest every use (quick: a seed-dependent third), plus random programs with up to four generated functions calling each " +
+		"other, uses in BEGIN / rules / END, as a pattern and as an exit code; second spelling: a final bare return dropped or added, `return` as " +
+		"`return <never-assigned local>`, `return e` as `t = e; return t`, and the spellings of the endings stream")
 	d, err := os.MkdirTemp("", "c01")
 	if err != nil {
 		panic(err)
@@ -321,6 +331,10 @@ func runC01(c *vh.Ctx) {
 	// the complete result (standard output, files, status, error) for every way a program can end, against the reference evaluator
 	if only := os.Getenv("C01_ONLY"); only == "" || only == "ends" {
 		c01Ends(c)
+	}
+	// the value of a user-function call for every way the callee can be left, against the same reference evaluator
+	if only := os.Getenv("C01_ONLY"); only == "" || only == "retval" {
+		c01RetVal(c)
 	}
 
 	c01FlushFails(c)
